@@ -208,7 +208,19 @@ ElemElement::startElement(StylesheetExecutionContext&       executionContext) co
                 namespaceLen == 0 &&
                 equals(prefix, DOMServices::s_XMLNamespace) == false)
             {
-                elemNameSpace = *theNamespace;
+                if (m_namespaceAVT == 0)
+                {
+                    elemNameSpace = *theNamespace;
+                }
+                else
+                {
+                    // An empty namespace attribute asks for an element in no
+                    // namespace, so the prefix must go, as it does when the
+                    // prefix is not declared (and as xsl:attribute does).
+                    elemName.erase(0, indexOfNSSep + 1);
+
+                    havePrefix = false;
+                }
             }
             else if (namespaceLen != 0 &&
                      (equals(prefix, DOMServices::s_XMLNamespace) == true ||
